@@ -618,6 +618,44 @@ def ephem_interleaved_case():
                 desc="two Ephem.iter() generators on one ephemeris, advanced alternately, each yield the three points in order")
 
 
+def none_case():
+    """the 'none' propagator: the state is kept, the date is the requested one -- given as a date or, like every propagator
+    accepts, as a timedelta from the epoch"""
+    from symx.stubs import SymDate, SymTD, carrier
+    ins = [("dt", "real")] + [(f"p{k}", "real") for k in range(6)]
+
+    def run(env, v):
+        if env.symbolic:
+            mod = env.mod("beyond.propagators.none")
+            if hasattr(mod, "timedelta"):
+                mod.timedelta = SymTD
+            p = mod.NonePropagator()
+            p.orbit = carrier([v[f"p{k}"] for k in range(6)], date=SymDate(0), frame="EME2000")
+            a = p.propagate(SymDate(v["dt"]))
+            b = p.propagate(SymTD(v["dt"]))
+            okb = isinstance(b.date, SymDate)
+            return {"by_date": [a.date.t] + list(a), "by_timedelta": [b.date.t if okb else -12345] + list(b),
+                    "date_type": Holds(SB(z3.BoolVal(bool(okb))))}
+        from beyond.dates import Date
+        from beyond.orbits import Orbit
+        d0 = Date(2020, 1, 1)
+        orb = Orbit([7e6 + v["p0"], v["p1"], v["p2"], v["p3"], 7.5e3 + v["p4"], v["p5"]], d0, "cartesian", "EME2000", "NonePropagator")
+        a = orb.propagate(d0 + _td(seconds=float(v["dt"])))
+        b = orb.propagate(_td(seconds=float(v["dt"])))
+        okb = isinstance(b.date, Date)
+        base = np.array(orb)
+        return {"by_date": [(a.date - d0).total_seconds()] + list(np.array(a) - base + np.array([v[f"p{k}"] for k in range(6)])),
+                "by_timedelta": [((b.date - d0).total_seconds() if okb else -12345)] + list(np.array(b) - base + np.array([v[f"p{k}"] for k in range(6)])),
+                "date_type": Holds(bool(okb))}
+
+    def ref(env, v, out):
+        st = [v[f"p{k}"] for k in range(6)]
+        return {"by_date": [v["dt"]] + st, "by_timedelta": [v["dt"]] + st, "date_type": None}
+    return Case("none_propagator", ins, run, ref, timeout=30, tol=1e-9, abs_tol=3e-6,
+                signature="NonePropagator.propagate(timedelta)",
+                desc="NonePropagator.propagate keeps the state and dates it at the requested date, given as a Date or as a timedelta")
+
+
 def all_cases(tier):
     K = bounds(tier)["max_points"]
     cs = []
@@ -627,7 +665,7 @@ def all_cases(tier):
     cs += [dates_case(), ephem_case("step", K), ephem_case("nostep", K), ephem_case("dates", K), ephem_strict_case(), ephem_bwd_case(K), ephem_interleaved_case(),
            keplernum_case("fwd_long", bounds(tier)["keplernum_steps"]), keplernum_case("fwd_short", bounds(tier)["keplernum_steps"]),
            keplernum_case("bwd", bounds(tier)["keplernum_steps"]), keplernum_case("dates_list", bounds(tier)["keplernum_steps"]), keplernum_case("adaptive", bounds(tier)["keplernum_steps"]),
-           numiter_args_case("timedelta"), numiter_args_case("date")]
+           numiter_args_case("timedelta"), numiter_args_case("date"), none_case()]
     return cs
 
 
